@@ -312,9 +312,6 @@ Definition block (f : astmt -> store -> (store -> dt unit) -> dt unit) : list as
 (* g on every item, in order, stopping at the first that does not return; then k.  g receives what follows it *)
 Fixpoint each_then {A} (g : aval -> dt A -> dt A) (items : list aval) (k : dt A) : dt A :=
   match items with [] => k | it :: rest => g it (each_then g rest k) end.
-(* the same on outcomes *)
-Fixpoint each (g : aval -> out unit) (items : list aval) : out unit :=
-  match items with [] => OK tt | it :: rest => obind (g it) (fun _ => each g rest) end.
 
 Section Eval.
 Variable ext : callee -> list aval -> dt aval.
